@@ -28,7 +28,6 @@ import (
 	"io"
 	"math/rand"
 	"net/http"
-	"os"
 	"sort"
 	"strconv"
 	"strings"
@@ -843,8 +842,6 @@ func c41Gen(r *rand.Rand, n int, tier string) []c41In {
 }
 
 func init() {
-	// shm's size gate is read once from the environment: let every batch through.
-	os.Setenv("VGI_RPC_SHM_MIN_BATCH_BYTES", "0")
 	Register("C41",
 		"a history is non-trivial iff at least one of its calls made >= 1 allocation through the shared checked allocator (so a leak on that path would be visible)",
 		c41Gen, c41Run)
